@@ -535,7 +535,18 @@ func dohOne(c *dohCase, limit int, up *upstream, fetcher *mod_doh.DnsClient) vh.
 		return res
 	}
 	fail := func(kind, det string) vh.Result {
-		res.Sig, res.Detail = key+":"+kind, det+fmt.Sprintf(" [client message %d bytes, limit %d]", len(wire), limit)
+		// the signature names the dimensions the failure kind depends on
+		k := key
+		bare := strings.TrimPrefix(kind, "wire-")
+		switch {
+		case strings.HasPrefix(bare, "ecs-"), bare == "pack-error":
+			k = "doh/client=" + c.Cfam
+		case strings.HasPrefix(bare, "opt-"), bare == "client-option-lost", bare == "do-bit-changed":
+			k = "doh/edns=" + c.Edns
+		case strings.HasPrefix(bare, "verdict="):
+			k = fmt.Sprintf("doh/%s/enc=%s/ctype=%s/size=%s/msg=%s", c.Method, c.Enc, c.Ctype, c.Size, c.Msg)
+		}
+		res.Sig, res.Detail = k+":"+kind, fmt.Sprintf("[%s] %s [client message %d bytes, limit %d]", key, det, len(wire), limit)
 		return res
 	}
 	obs := map[string]interface{}{"query_len": len(wire)}
@@ -596,8 +607,17 @@ func dohOne(c *dohCase, limit int, up *upstream, fetcher *mod_doh.DnsClient) vh.
 		// forwarded although it had to be rejected: say what was sent
 		det := fmt.Sprintf("the request had to be rejected but a %d-byte message was produced", len(direct))
 		if f, e := parseMsg(direct); e == nil {
-			n := len(f.RRs[0]) + len(f.RRs[1]) + len(f.RRs[2])
-			det += fmt.Sprintf(" (%d records; the client sent %d)", n, len(q.RRs[0])+len(q.RRs[1])+len(q.RRs[2]))
+			cnt := func(m *dMsg) (n int) {
+				for s := 0; s < 3; s++ {
+					for _, rr := range m.RRs[s] {
+						if rr.Type != typeOPT {
+							n++
+						}
+					}
+				}
+				return
+			}
+			det += fmt.Sprintf(" (%d records besides OPT; the client sent %d)", cnt(f), cnt(q))
 		}
 		return fail("verdict=fwd", det)
 	}
